@@ -39,12 +39,16 @@ def gen(repo, pins):
     wd_threshold = parse_int(ths[0])
     if len(re.findall(r'if\s+compose_len\s*>\s*limit\s*\{', tm)) != 1:
         raise TieError('take_message: announcement loop no longer compares with `limit`')
-    m = re.search(r'let\s+limit\s*=\s*\(\s*Self::MAX_PDU\s*-\s*(\([0-9+\s]+\))\s*-\s*([0-9]+)\s*\)\s*'
+    m = re.search(r'let\s+limit\s*=\s*\(\s*Self::MAX_PDU\s*-\s*(\([0-9+\s]+\))\s*-\s*([0-9]+|\([0-9+\s]+\))\s*\)\s*'
                   r'\.checked_sub\(\s*reach_builder\.get_nexthop\(\)\.compose_len\(\)\s*\)\s*'
                   r'\.and_then\(\s*\|l\|\s*l\.checked_sub\(other_attrs_len\)\s*\)\s*;', tm)
     if not m:
         raise TieError('take_message: `limit` expression not recognised')
-    limit_fixed = arith(m.group(1)) + parse_int(m.group(2))
+    limit_fixed = arith(m.group(1)) + arith(m.group(2))
+    # the extracted literals are masked in the pinned text of take_message: changing them regenerates the model
+    # (and the proofs decide), changing anything else breaks the pin
+    tm_masked = tm[:m.start(1)] + '#A' + tm[m.end(1):m.start(2)] + '#B' + tm[m.end(2):]
+    tm_masked = re.sub(r'if\s+compose_len\s*>\s*[0-9_]+\s*\{', 'if compose_len > #T {', tm_masked)
     lt, _ = find_fn(src, 'larger_than')
     m = re.search(r'b\.announcements\.len\(\)\s*\*\s*([0-9]+)\s*>\s*max', lt)
     if not m:
@@ -61,6 +65,7 @@ def gen(repo, pins):
                  'set_mp_nexthop', 'add_announcement', 'add_withdrawal', 'split', 'value_len', 'compose_value',
                  'compose_len', 'compose'):
         pinned[name] = sha(norm(find_fn(src, name)[0]))
+    pinned['take_message'] = sha(norm(tm_masked))
     # second occurrences (MpUnreachNlriBuilder; the per-MP-builder from_pdu bodies)
     for name, which in (('split', 1), ('value_len', 1), ('compose_value', 1), ('add_announcements_from_pdu', 1),
                         ('add_withdrawals_from_pdu', 1), ('add_announcement', 1), ('add_withdrawal', 1)):
